@@ -6,14 +6,17 @@ def matchRows (k : Int) : List Int → Nat → List Nat
   | [], _ => []
   | b :: bs, base => if b == k then base :: matchRows k bs (base + 1) else matchRows k bs (base + 1)
 
+/-- the output rows of one left row: one per matching right row, or a single unmatched row -/
+def leftRow (base : Nat) : List Nat → List (Nat × Option Nat)
+  | [] => [(base, none)]
+  | ms => ms.map (fun j => (base, some j))
+
 /-- left join of `l` (rows numbered from `base`) with `r`: every left row in order, paired with each equal-keyed
     right row in order, or once with `none` -/
 def leftJoinFrom (r : List Int) : List Int → Nat → List (Nat × Option Nat)
   | [], _ => []
   | a :: as, base =>
-    (match matchRows a r 0 with
-     | [] => [(base, none)]
-     | ms => ms.map (fun j => (base, some j))) ++ leftJoinFrom r as (base + 1)
+    leftRow base (matchRows a r 0) ++ leftJoinFrom r as (base + 1)
 
 def leftJoin (l r : List Int) : List (Nat × Option Nat) := leftJoinFrom r l 0
 
@@ -24,9 +27,18 @@ def innerJoinFrom (r : List Int) : List Int → Nat → List (Nat × Nat)
 
 def innerJoin (l r : List Int) : List (Nat × Nat) := innerJoinFrom r l 0
 
+/-- left map column -/
+def encL (rows : List (Nat × Option Nat)) : List Int := rows.map (fun p => (p.1 : Int))
+
+/-- right map column, unmatched rows encoded by the caller's marker `inv` -/
+def encCell (inv : Int) : Option Nat → Int
+  | some j => (j : Int)
+  | none => inv
+
+def encR (inv : Int) (rows : List (Nat × Option Nat)) : List Int := rows.map (fun p => encCell inv p.2)
+
 /-- the two map columns of a left join, unmatched right entries encoded by `inv` -/
-def encodeLeft (inv : Int) (rows : List (Nat × Option Nat)) : List Int × List Int :=
-  (rows.map (fun p => (p.1 : Int)), rows.map (fun p => match p.2 with | some j => (j : Int) | none => inv))
+def encodeLeft (inv : Int) (rows : List (Nat × Option Nat)) : List Int × List Int := (encL rows, encR inv rows)
 
 def encodeInner (rows : List (Nat × Nat)) : List Int × List Int :=
   (rows.map (fun p => (p.1 : Int)), rows.map (fun p => (p.2 : Int)))
